@@ -260,6 +260,9 @@ func (w *World) guard(nd *Node, what string, f func()) {
 		w.cur = prev
 		if r := recover(); r != nil {
 			stack := string(debug.Stack())
+			if panicInHarness(stack) {
+				panic(fmt.Sprintf("harness bug (panic in simulator code): %v\n%s", r, stack))
+			}
 			fn := innermostRepoFunc(stack)
 			w.stats.Panics++
 			w.logf("PANIC n%d %s in %s: %v", nd.id, what, fn, r)
@@ -271,6 +274,24 @@ func (w *World) guard(nd *Node, what string, f func()) {
 		}
 	}()
 	f()
+}
+
+// panicInHarness reports whether the innermost non-runtime frame of the panicking stack is simulator code.
+func panicInHarness(stack string) bool {
+	lines := strings.Split(stack, "\n")
+	seenPanic := false
+	for _, l := range lines {
+		l = strings.TrimSpace(l)
+		if strings.HasPrefix(l, "panic(") {
+			seenPanic = true
+			continue
+		}
+		if !seenPanic || l == "" || strings.HasPrefix(l, "/") || strings.HasPrefix(l, "runtime.") || strings.HasPrefix(l, "internal/runtime") {
+			continue
+		}
+		return strings.Contains(l, "zz_verifsim")
+	}
+	return false
 }
 
 func innermostRepoFunc(stack string) string {
